@@ -83,7 +83,7 @@ PROFILES = {
     "sharing": dict(
         property="C10",
         oracles=["O10"],
-        weights=_w(expr=6, pipe=3, apply_pipe=5, observe=8, collect_lazy=3, mutate=8, mutate_w=3, summarize=5, group_by=5, ungroup=2, ref=5, join=2, union=1, gc=1, arm_engine=1, select=2, rename=2, alias=2, collect=1, clone=1),
+        weights=_w(reject=3, expr=6, pipe=3, apply_pipe=5, observe=8, collect_lazy=3, mutate=8, mutate_w=3, summarize=5, group_by=5, ungroup=2, ref=5, join=2, union=1, gc=1, arm_engine=1, select=2, rename=2, alias=2, collect=1, clone=1),
         mutate_kinds=dict(ref=1, tag=2, pool=8, case=1, litcast=2, lit=1),
         window_kinds=dict(agg=3, shift=2, rown=1, pool=6),
         summarize_kinds=dict(agg=3, pool=5, arith_agg=1),
